@@ -35,3 +35,9 @@ def bor(a, b):
 
 def band(a, b):
     return a & b
+
+
+def abstract(f):
+    """marks a spec function that tier P treats as uninterpreted (its axioms are declared in
+    the sidecar and listed as assumptions); the body is the native definition"""
+    return f
